@@ -125,7 +125,7 @@ def classify(diags, ug, canary=False):
         for k, pat in (('postcondition', 'postcondition not satisfied'), ('precondition', 'precondition not satisfied'),
                        ('invariant_end', 'invariant not satisfied at end of loop body'), ('invariant_front', 'invariant not satisfied before loop'),
                        ('assertion', 'assertion failed'), ('overflow', 'possible arithmetic underflow/overflow'),
-                       ('decreases', 'decreases not satisfied'), ('loop_ensures', 'loop ensures not satisfied'), ('rlimit', 'Resource limit'),
+                       ('decreases', 'decreases not satisfied'), ('loop_ensures', 'loop ensures not satisfied'), ('rlimit', 'Resource limit'), ('closure_requires', 'callee.requires(args)'),
                        ('index', 'index'), ('termination', 'termination'), ('div0', 'possible division by zero'), ('bitshift', 'shift')):
             if pat in msg:
                 kind = k
@@ -312,7 +312,7 @@ def verify_unit(unit_name, repo=None, use_cache=True, keep=True, canary=True):
         res.status = 'undecided'
         res.reason = 'unsupported-construct or compile error: ' + ' | '.join(h['message'] for h in hard[:3])
         res.hard_errors = hard[:10]
-    elif any(f['kind'] == 'rlimit' for f in failures):
+    elif failures and all(f['kind'] == 'rlimit' for f in failures):
         res.status = 'undecided'
         res.reason = 'rlimit'
     elif failures:
